@@ -82,9 +82,60 @@ func (r *Root) sliceInfo() *sliceCache {
 	return sc
 }
 
+// cone: the basic blocks from which the block of obligation o can be reached (including itself); nil = every block.
+// Facts produced while encoding a block outside the cone are guarded by a reach condition that is incompatible with the
+// obligation's own, so dropping them loses nothing (and dropping hypotheses is always sound).
+func (r *Root) cone(blk int) map[int]bool {
+	if blk < 0 || r.fn == nil || blk >= len(r.fn.Blocks) {
+		return nil
+	}
+	if r.cones == nil {
+		r.cones = map[int]map[int]bool{}
+	}
+	if c, ok := r.cones[blk]; ok {
+		return c
+	}
+	c := map[int]bool{blk: true}
+	work := []int{blk}
+	for len(work) > 0 {
+		b := r.fn.Blocks[work[len(work)-1]]
+		work = work[:len(work)-1]
+		for _, p := range b.Preds {
+			if !c[p.Index] {
+				c[p.Index] = true
+				work = append(work, p.Index)
+			}
+		}
+	}
+	r.cones[blk] = c
+	return c
+}
+
+// coneAssumptions: all assume items of o's cone; second result false if the cone removes nothing.
+func (r *Root) coneAssumptions(o *Obligation) (map[int]bool, bool) {
+	c := r.cone(o.Blk)
+	if c == nil {
+		return nil, false
+	}
+	keep := map[int]bool{}
+	dropped := 0
+	for i := 0; i < o.N; i++ {
+		if r.items[i].Kind != "assume" {
+			continue
+		}
+		if b := r.items[i].Blk; b >= 0 && !c[b] {
+			dropped++
+			continue
+		}
+		keep[i] = true
+	}
+	return keep, dropped > 0
+}
+
 // relevantAssumptions returns the set of item indexes (assume items) kept for obligation o.
 func (r *Root) relevantAssumptions(o *Obligation, depth int, tol float64) map[int]bool {
 	sc := r.sliceInfo()
+	cone := r.cone(o.Blk)
 	freq := map[string]int{}
 	for i := 0; i < o.N; i++ {
 		for _, s := range sc.itemSym[i] {
@@ -128,11 +179,30 @@ func (r *Root) relevantAssumptions(o *Obligation, depth int, tol float64) map[in
 			if keep[i] || r.items[i].Kind != "assume" {
 				continue
 			}
+			if b := r.items[i].Blk; cone != nil && b >= 0 && !cone[b] {
+				continue
+			}
 			hit := false
 			for _, s := range trig[i] {
 				if active[s] {
 					hit = true
 					break
+				}
+			}
+			// membership facts (has_elem_<sort> lemmas of appends/removals) can only contribute if membership of that sort is
+			// already part of the problem; otherwise they only feed instantiation chains
+			if hit {
+				gated, open := false, false
+				for _, s := range sc.itemSym[i] {
+					if strings.HasPrefix(s, "has_elem_") {
+						gated = true
+						if active[s] {
+							open = true
+						}
+					}
+				}
+				if gated && !open {
+					hit = false
 				}
 			}
 			if hit {
